@@ -97,3 +97,27 @@ Print Assumptions flag_before_refs_refuted.
 Print Assumptions drop_before_publish_refuted.
 Print Assumptions removal_ignores_refs_refuted.
 Print Assumptions no_snapshot_lock_refuted.
+
+(* ---------------------------------------------------------------- engine level (C04/Eng.v) *)
+From OG Require Import C04.Eng C04.EngRefuted.
+
+(* without the time-out of DeleteDatabase's wait a writer pending on EngineImpl.mu deadlocks the drop (the query cannot
+   release its reference, the drop holds the read lock the writer waits for); with the time-out - the code - the same
+   state has exactly one way out, and taking it everything drains *)
+Theorem engine_drop_wait_needs_timeout :
+  ereach no_timeout (einit [P_query; P_dropdb; P_close]) (stall_state no_timeout) /\
+  deadlocked no_timeout (stall_state no_timeout) = true /\
+  deadlocked ecode (stall_state ecode) = false /\
+  match eexec ecode (stall_state ecode) 1 false with
+  | Some st => forallb edone (eacts (run_rounds ecode 6 st [1; 2; 0])) = true /\ bad (esh (run_rounds ecode 6 st [1; 2; 0])) = []
+  | None => False
+  end.
+Proof. exact drop_wait_needs_timeout. Qed.
+
+(* a DBPTInfo.ref that ignores `offloading` lets the directories be deleted under a reference *)
+Theorem engine_ref_ignoring_offloading_refuted : exists st,
+  ereach ref_ignores_offloading (einit [P_dropdb; P_query]) st /\ bad (esh st) <> [].
+Proof. exact ref_ignoring_offloading_refuted. Qed.
+
+Print Assumptions engine_drop_wait_needs_timeout.
+Print Assumptions engine_ref_ignoring_offloading_refuted.
